@@ -203,10 +203,11 @@ fn make_qp(code: (char, char, char), n: usize, m: usize, t: usize) -> Qp {
     let has_q = matches!(code.2, 'D' | 'C' | 'Q');
     let mut qi = vec![];
     let mut bi = vec![];
-    let sides: [(f64, f64); 7] = [(-1.0, 4.0), (-inf, 4.0), (-1.0, inf), (2.0, 2.0), (-big, 4.0), (-1.0, big), (-inf, inf)];
+    // the last entry has the wrong-signed infinity on the lower side: only the magnitude counts
+    let sides: [(f64, f64); 8] = [(-1.0, 4.0), (-inf, 4.0), (-1.0, inf), (2.0, 2.0), (-big, 4.0), (-1.0, big), (-inf, inf), (inf, 4.0)];
     let mut cl = vec![];
     let mut cu = vec![];
-    let (cl_default, cu_default) = sides[(t / 3) % 7];
+    let (cl_default, cu_default) = sides[(t / 3) % 8];
     for k in 1..=m {
         if has_q {
             let pat = (t / 5 + k) % 3;
@@ -235,17 +236,17 @@ fn make_qp(code: (char, char, char), n: usize, m: usize, t: usize) -> Qp {
             }
         }
         if k >= 2 {
-            let s = sides[(t / 3 + k * 3) % 7];
+            let s = sides[(t / 3 + k * 3) % 8];
             cl.push((k, s.0));
             cu.push((k, s.1));
         }
     }
-    let bounds: [(f64, f64); 6] = [(0.0, 1.0), (-2.0, 3.0), (-inf, 3.0), (0.0, inf), (-big, big), (1.0, 1.0)];
-    let (l_default, u_default) = bounds[(t / 7) % 6];
+    let bounds: [(f64, f64); 7] = [(0.0, 1.0), (-2.0, 3.0), (-inf, 3.0), (0.0, inf), (-big, big), (1.0, 1.0), (inf, -big)];
+    let (l_default, u_default) = bounds[(t / 7) % 7];
     let mut lv = vec![];
     let mut uv = vec![];
     for i in 2..=n {
-        let b = bounds[(t / 7 + i * 5) % 6];
+        let b = bounds[(t / 7 + i * 5) % 7];
         lv.push((i, b.0));
         uv.push((i, b.1));
     }
@@ -386,7 +387,7 @@ pub fn run(ctx: &Ctx) -> Finish {
     ctx.assume("Outside the alphabet: well-formed but out-of-range indices (0, > n), upper-triangle entries, repeated entries for the same position.");
     Finish {
         level: "model_checking",
-        rule: "abstract QP models for EACH of the 120 problem-type codes (objective L/D/C/Q x variables C/B/M/I/G x constraints N/B/L/D/C/Q) x sizes (n,m) x a deterministic sweep that visits every value of every content dimension (Q0 diagonal/off-diagonal patterns, default and non-default b0 incl. explicit zero, q0, per-constraint Qi/bi (constraints without linear entries: none / the last / the first / all), constraint sides finite / at threshold / beyond threshold / equal, variable bounds likewise, variable types, names, infinity value 1e20 / 50, sense) x layouts (comment lines with ! # %, blank lines, trailing text, lower-case keywords, sparse sections written in ascending or descending index order), rendered by the harness's own writer and loaded with qplib::load_file or qplib::load_file_bytes (+ decode); expected problem computed from the model: objective 1/2 x'Q0x + b0'x + q0 from the lower triangle, one <=0 constraint per finite side, variables; fault files: each type-code character invalid, counts non-numeric / negative / fractional, unparsable numbers, truncation after every line => Err carrying the line number".into(),
+        rule: "abstract QP models for EACH of the 120 problem-type codes (objective L/D/C/Q x variables C/B/M/I/G x constraints N/B/L/D/C/Q) x sizes (n,m) x a deterministic sweep that visits every value of every content dimension (Q0 diagonal/off-diagonal patterns, default and non-default b0 incl. explicit zero, q0, per-constraint Qi/bi (constraints without linear entries: none / the last / the first / all), constraint sides finite / at threshold / beyond threshold (also with the wrong sign) / equal, variable bounds likewise, variable types, names, infinity value 1e20 / 50, sense) x layouts (comment lines with ! # %, blank lines, trailing text, lower-case keywords, sparse sections written in ascending or descending index order), rendered by the harness's own writer and loaded with qplib::load_file or qplib::load_file_bytes (+ decode); expected problem computed from the model: objective 1/2 x'Q0x + b0'x + q0 from the lower triangle, one <=0 constraint per finite side, variables; fault files: each type-code character invalid, counts non-numeric / negative / fractional, unparsable numbers, truncation after every line => Err carrying the line number".into(),
         bounds: json!({"n_max": 5, "m_max": 4, "codes": 120, "sweep": sweep, "layouts": lays.len()}),
         exhaustive: true,
     }
